@@ -6,6 +6,7 @@ from common import Failure, coq_list
 
 ID = "C03"
 GEN = ["gen_filters"]
+EXTRA_PROPERTY_FILES = ["C03Inf"]     # window filters with explicit infinite float limits (float('inf'), numpy.float64 inf), in either order
 ALLOWED_AXIOMS = []
 TRUSTED = [
     "Coq 8.16.1 kernel + vm_compute (no native_compute)",
